@@ -61,6 +61,8 @@ pub struct SrvRef {
     /// session but never shown (the results are dropped with the error, known finding K2b), so from here on an id the
     /// tracker has not seen may well be outstanding
     blind: bool,
+    /// a createStream answer announced a stream id the session had already issued (reported once, at the next op)
+    dup_stream: Option<u32>,
 }
 
 impl SrvRef {
@@ -74,7 +76,7 @@ impl SrvRef {
             match rd.decode_all(b) {
                 Err(_) => { self.outp = None; return; }
                 Ok(ms) => for m in ms { if m.typ == 20 { if let Ok(vs) = refcodec::decode(&m.data) {
-                    if let (Some(crate::amftext::V::Str(n)), Some(crate::amftext::V::Number(b))) = (vs.get(0), vs.get(3)) { if n == b"_result" { self.created.insert(f64::from_bits(*b) as u32); } } } } }
+                    if let (Some(crate::amftext::V::Str(n)), Some(crate::amftext::V::Number(b))) = (vs.get(0), vs.get(3)) { if n == b"_result" { let id = f64::from_bits(*b) as u32; if !self.created.insert(id) && self.dup_stream.is_none() { self.dup_stream = Some(id); } } } } } }
             }
         }
     }
@@ -86,6 +88,7 @@ impl SrvRef {
         let connected_before = self.accepted_app.is_some();
         let created_before = self.created.clone();
         self.sync_outputs(t);
+        if let Some(id) = self.dup_stream.take() { self.dup_stream = Some(u32::MAX); if id != u32::MAX { return Some(format!("stream-id-{}-issued-twice", id)); } }
         let rd = self.inp.as_mut()?;
         let ms = match rd.decode_all(data) { Ok(m) => m, Err(_) => { self.inp = None; return None; } };
         if failed {
